@@ -823,6 +823,52 @@ func (C07) Oracle(line, goOut string) string {
 	switch t[0] {
 	case "mergecheck":
 		return mergeOracle(t, "C07")
+	case "reencode":
+		// content preservation (C07.reencode_keeps_content, observed on the real function): output entry i keeps ID,
+		// run length and length of input entry i, and the byte at its new offset + k is the source byte at the old
+		// offset + k — followed through the ranges (source byte s is copied to dst + (s - src))
+		es, _, ok := parseEntries(t[1:])
+		if !ok {
+			return ""
+		}
+		samelen := true
+		for i := range es {
+			for j := 0; j < i; j++ {
+				if es[j].Offset == es[i].Offset && es[j].Length != es[i].Length {
+					samelen = false // equal offsets with different lengths: outside the theorem's hypothesis (OffLen)
+				}
+			}
+		}
+		if !samelen {
+			return ""
+		}
+		re, ranges, _, _, _ := pmtiles.VerifReencodeEntries(es)
+		if len(re) != len(es) {
+			return fmt.Sprintf("re-encoding %d entries gave %d", len(es), len(re))
+		}
+		srcOf := func(dst uint64) (uint64, bool) {
+			for _, rg := range ranges {
+				if dst >= rg.DstOffset && dst < rg.DstOffset+rg.Length {
+					return rg.SrcOffset + (dst - rg.DstOffset), true
+				}
+			}
+			return 0, false
+		}
+		for i, e := range es {
+			o := re[i]
+			if o.TileID != e.TileID || o.RunLength != e.RunLength || o.Length != e.Length {
+				return fmt.Sprintf("entry %d: %v re-encoded as %v", i, e, o)
+			}
+			if e.Length == 0 {
+				continue
+			}
+			for _, k := range []uint64{0, uint64(e.Length) / 2, uint64(e.Length) - 1} {
+				if sv, ok := srcOf(o.Offset + k); !ok || sv != e.Offset+k {
+					return fmt.Sprintf("entry %d (tile %d): byte %d of its content is taken from source offset %d (found=%v), its content is at %d", i, e.TileID, k, sv, ok, e.Offset+k)
+				}
+			}
+		}
+		return ""
 	case "relevant":
 		// membership oracle: the tiles addressed by the result = tiles of the directory ∩ S; same offset/length
 		maxz, _ := strconv.Atoi(t[1])
